@@ -25,7 +25,7 @@ from mc import core, e3_deviation as e3
 PROPERTY = 'C11'
 LEVEL = 'fault_enumeration'
 RULE = ('program = endpoint {server connection, UNIX client, TCP client, File} x poller x 1-3 write events with payloads of 0, 1, 3 '
-        'distinct bytes x position of a close request (none / after write i) x delivery mode (all events at once / one per loop '
+        'distinct bytes x position of a close request (none / after write i; issued once or twice) x delivery mode (all events at once / one per loop '
         'iteration); environment = outcome of every send()/os.write(): accept all | 1 byte | n-1 bytes | EAGAIN | EINTR | ENOBUFS | '
         'EPIPE | ECONNRESET with <= k non-default answers; non-trivial = execution with at least one non-default answer that '
         'exercised a requeue / deferred close / fatal path; distinct = distinct (program, answer script)')
@@ -240,6 +240,8 @@ class World:
 
 def execute(program, prefix):
     endpoint, pname, payloads, close_after, mode = program
+    twice = mode.endswith('2')      # the close request is issued twice (two handlers both ask, close() then a shutdown, ...)
+    mode = mode.rstrip('2')
     w = World(program, prefix)
     try:
         if not w.ready:
@@ -251,6 +253,8 @@ def execute(program, prefix):
             if close_after == i + 1:
                 # server_closeall: the close event without a socket - the whole server, every connection (buffered data first)
                 evs.append(close(w.sock) if endpoint == 'server' else close())
+                if twice:
+                    evs.append(close(w.sock) if endpoint == 'server' else close())
         if mode == 'burst':
             for e in evs:
                 w.root.fire(e, 'ep')
@@ -326,6 +330,15 @@ def programs(tier):
             for pl in payload_lists(maxn):
                 for ca in [None] + list(range(1, len(pl) + 1)):
                     for mode in ('burst', 'spread'):
+                        yield (ep, pn, pl, ca, mode), k
+    # the close request arrives twice while data written before it may still be buffered
+    for ep in endpoints:
+        for pn in pollers:
+            for pl in payload_lists(maxn):
+                if not any(pl):
+                    continue
+                for ca in range(1, len(pl) + 1):
+                    for mode in ('burst2', 'spread2'):
                         yield (ep, pn, pl, ca, mode), k
     # the whole server is closed (close event without a socket) while a connection still has data buffered
     for pn in pollers:
